@@ -120,6 +120,9 @@ func writerWriteRules(c *Ctx, prop string) {
 			cfg.n = []int{0, 4, 14}[mm.Choose("n", 3)]
 			cfg.noFlush = mm.Choose("noflush", 2) == 1
 			cfg.sticky = mm.Choose("sticky", 2) == 1
+			// NewWriterBuffer(arena[:n]): a caller's buffer may have capacity beyond its length;
+			// the free space is counted in len(buf), never in cap(buf)
+			cfg.arena = []int{0, 32}[mm.Choose("arena", 2)]
 			obj, _ = newWriterObj(mm, L, cfg)
 			return []fold.Val{fold.Ref{O: obj}, fold.SymSeq{Name: "p", Len: cells[0]}}
 		}, func(mm *fold.Machine, cells []fold.Int, p *fold.Path) {
@@ -276,6 +279,9 @@ func writerWriteRules(c *Ctx, prop string) {
 			cfg.n = []int{0, 4, 14}[mm.Choose("n", 3)]
 			cfg.noFlush = mm.Choose("noflush", 2) == 1
 			cfg.sticky = mm.Choose("sticky", 2) == 1
+			// NewWriterBuffer(arena[:n]): a caller's buffer may have capacity beyond its length;
+			// the free space is counted in len(buf), never in cap(buf)
+			cfg.arena = []int{0, 32}[mm.Choose("arena", 2)]
 			obj, _ = newWriterObj(mm, L, cfg)
 			return []fold.Val{fold.Ref{O: obj}, fold.Iface{V: fold.Sym{Name: "src", NonNil: true}}}
 		}, func(mm *fold.Machine, p *fold.Path) {
